@@ -26,7 +26,28 @@ use crate::parser::visitor::Visitor;
 /// lines, with one parameter per line.
 const MAX_SIGNATURE_LINE_LEN: usize = 100;
 
+/// Format `src`. The individual phases work line by line on the
+/// layout they are given, and an edit can change which line a
+/// construct starts on, so one pass over unusually laid out code may
+/// not reach the final layout. Repeat until nothing changes, so that
+/// formatting formatted code is a no-op.
 pub(crate) fn format(src: &str, path: &Path) -> String {
+    let mut current = format_once(src, path);
+    for _ in 0..MAX_FORMAT_PASSES {
+        let next = format_once(&current, path);
+        if next == current {
+            break;
+        }
+        current = next;
+    }
+    current
+}
+
+/// Well-formed code settles after two or three passes; this is only a
+/// safety net against layouts that keep changing.
+const MAX_FORMAT_PASSES: usize = 10;
+
+fn format_once(src: &str, path: &Path) -> String {
     // Phase 0: Wrap long single-line function/method signatures onto
     // multiple lines before any other formatting. This requires
     // re-parsing afterwards because line numbers and offsets shift.
